@@ -120,7 +120,8 @@ def simulate(throughput, participants, removals):
                 if own is not None and abs(own - removal[name]) <= Fraction(1, 10 ** 9) * max(
                         1, abs(removal[name])):
                     ambiguous = True
-        candidates = [when for when in candidates if when > now]
+        # (a transfer of infinite volume never completes by itself)
+        candidates = [when for when in candidates if when > now and when != INF]
         if not candidates:
             break
         then = min(candidates)
